@@ -130,6 +130,7 @@ bool spec_valid(const StartSpec &s, int eff[3]) {
   const ShimConsts &C = g_consts_cache;
   if (s.input_size >= 0 && !s.input_bad && eff[0] != C.R_PIPE) return false;
   if (s.input_bad) return false;
+  if (s.argv_empty) return false;  // no program with or without fork mode
   if (s.fork != s.argv_null) return false;
   if (!s.fork && s.prog == 8) { /* empty program string: argv[0] non-NULL, accepted by the options */ }
   return true;
@@ -225,6 +226,10 @@ void Runner::setup() {
   // signals
   for (int s : plan.w.ignored) if (s >= 1 && s <= 64 && s != SIGKILL && s != SIGSTOP) k->caller->disp[s] = D_IGN;
   for (int s : plan.w.handled) if (s >= 1 && s <= 64 && s != SIGKILL && s != SIGSTOP) k->caller->disp[s] = D_HANDLER;
+  if (plan.w.sa_flags) {
+    for (int s = 1; s <= 64; s++) if (k->caller->disp[s] == D_HANDLER) k->caller->sa_flags[s] = SA_RESTART | SA_SIGINFO;
+    if (k->caller->disp[SIGCHLD] == D_DFL) k->caller->sa_flags[SIGCHLD] = SA_NOCLDWAIT;
+  }
   // README: ignoring SIGPIPE is required for the closed-pipe error to be observable; plans that never write may leave it alone
   k->caller->disp[SIGPIPE] = plan.w.sigpipe == 0 ? D_IGN : plan.w.sigpipe == 2 ? D_HANDLER : D_DFL;
   k->specs = plan.children;
@@ -294,6 +299,8 @@ void Runner::on_kill(Thread *t, int pid, int sig, Proc *target) {
          fmt("kill(%d, %d) issued by the library", pid, sig), t->op);
     return;
   }
+  // a child that somebody else collected behind the library's back (injected ECHILD): the library cannot know its pid is gone
+  if (t->expect_uid >= 0 && (size_t) t->expect_uid < K->procs.size() && K->procs[(size_t) t->expect_uid]->auto_reaped) return;
   bool own = target && (target->uid == t->expect_uid || ((op.kind == OP_START || op.kind == OP_RUN) && target->start_op == t->op));
   if (!own || target->st == Proc::REAPED || target->st == Proc::FOREIGN) {
     viol("C06", "signal-to-foreign-or-reaped", fmt("op=%s/sig=%s", op_name[op.kind], what),
@@ -311,6 +318,7 @@ void Runner::on_waitpid(Thread *t, int pid, int options, Proc *target) {
     viol("C06", "reap-of-nonpositive-pid", fmt("op=%s/pid=%d", op_name[op.kind], pid), fmt("waitpid(%d) issued by the library", pid), t->op);
     return;
   }
+  if (t->expect_uid >= 0 && (size_t) t->expect_uid < K->procs.size() && K->procs[(size_t) t->expect_uid]->auto_reaped) return;
   bool ok = target && target->st != Proc::REAPED && target->st != Proc::FOREIGN &&
             (target->uid == t->expect_uid || (op.kind == OP_START || op.kind == OP_RUN ? target->start_op == t->op : false));
   if (!ok)
@@ -376,6 +384,7 @@ void Runner::check_child_streams(size_t hi) {
 
 void Runner::final_checks() {
   Kernel *k = K;
+  for (char *&sp : str_slot) if (sp) { api->free_(sp); sp = nullptr; }
   bool clean = !k->hung && !k->capped && k->fatal.empty();
   // streams: no stdin corruption; EOF bookkeeping
   for (size_t hi = 0; hi < hs.size(); hi++) check_child_streams(hi);
@@ -451,17 +460,26 @@ extern char __stop_reproc_data[] __attribute__((weak));
 extern char __start_reproc_bss[] __attribute__((weak));
 extern char __stop_reproc_bss[] __attribute__((weak));
 }
-static std::vector<char> g_img_data, g_img_bss;
+extern "C" {
+extern __thread char simk_tls_data_begin, simk_tls_data_end, simk_tls_bss_begin, simk_tls_bss_end;
+}
+static std::vector<char> g_img_data, g_img_bss, g_img_tdata;
 static bool g_img_saved = false;
 
 static void library_statics_reset() {
   char *d0 = __start_reproc_data, *d1 = __stop_reproc_data, *b0 = __start_reproc_bss, *b1 = __stop_reproc_bss;
+  // the library's thread-local variables of the thread the plans run on (all simulated threads are coroutines of it): between
+  // the marker variables of sim/tlsmark_*.cc, initialised ones and zero-initialised ones separately
+  char *t0 = &simk_tls_data_begin + 1, *t1 = &simk_tls_data_end, *z0 = &simk_tls_bss_begin + 1, *z1 = &simk_tls_bss_end;
   if (!g_img_saved) {
     if (d0 && d1 > d0) { g_img_data.resize((size_t) (d1 - d0)); coro_raw_copy(g_img_data.data(), d0, g_img_data.size()); }
     if (b0 && b1 > b0) { g_img_bss.resize((size_t) (b1 - b0)); coro_raw_copy(g_img_bss.data(), b0, g_img_bss.size()); }
+    if (t1 > t0) { g_img_tdata.resize((size_t) (t1 - t0)); coro_raw_copy(g_img_tdata.data(), t0, g_img_tdata.size()); }
     g_img_saved = true;
     return;
   }
+  if (t1 > t0 && g_img_tdata.size() == (size_t) (t1 - t0)) coro_raw_copy(t0, g_img_tdata.data(), g_img_tdata.size());
+  if (z1 > z0) { static std::vector<char> zeros; zeros.assign((size_t) (z1 - z0), 0); coro_raw_copy(z0, zeros.data(), zeros.size()); }
   if (!g_img_data.empty()) coro_raw_copy(d0, g_img_data.data(), g_img_data.size());
   if (!g_img_bss.empty()) coro_raw_copy(b0, g_img_bss.data(), g_img_bss.size());
 }
